@@ -556,6 +556,74 @@ fn check_sortedmulti(rep: &mut Report, case: u64, world: &World, rng: &mut Rng) 
     }
 }
 
+/// Descriptors written with extended PRIVATE keys whose path mixes hardened and unhardened steps
+/// in any order: the public descriptor `parse_descriptor` returns (hardened prefix applied to
+/// the private key, the rest left on the xpub) has to derive the scripts of the full path.
+fn check_secret_paths(rep: &mut Report, case: u64, world: &World, rng: &mut Rng) {
+    use bitcoin::bip32::{ChildNumber, DerivationPath, Xpriv};
+    let seed: Vec<u8> = (0..32).map(|_| rng.below(256) as u8).collect();
+    let testnet = rng.chance(1, 4);
+    let master = match Xpriv::new_master(if testnet { Network::Testnet } else { Network::Bitcoin }, &seed) {
+        Ok(m) => m,
+        Err(_) => return,
+    };
+    let n_steps = 1 + rng.below(4);
+    let steps: Vec<ChildNumber> = (0..n_steps)
+        .map(|_| {
+            let idx = rng.below(5) as u32;
+            if rng.coin() {
+                ChildNumber::from_hardened_idx(idx).unwrap()
+            } else {
+                ChildNumber::from_normal_idx(idx).unwrap()
+            }
+        })
+        .collect();
+    let wildcard = rng.chance(2, 3);
+    let origin = if rng.chance(1, 3) { format!("[{}/44h/{}]", master.fingerprint(&world.secp), rng.below(3)) } else { String::new() };
+    let path_text: String = steps.iter().map(|c| format!("/{}", c)).collect();
+    let key_text = format!("{}{}{}{}", origin, master, path_text, if wildcard { "/*" } else { "" });
+    let wrapper = *rng.pick(&["wpkh(@)", "pkh(@)", "sh(wpkh(@))", "wsh(pk(@))", "tr(@)"]);
+    let s = wrapper.replace('@', &key_text);
+    let index = rng.below(4) as u32;
+    rep.eval();
+    let r = guarded(std::panic::AssertUnwindSafe(|| {
+        let (d, km) = Descriptor::parse_descriptor(&world.secp, &s).map_err(|e| e.to_string())?;
+        let spk = d.at_derivation_index(index).map_err(|e| e.to_string())?.derived_descriptor(&world.secp).script_pubkey().to_bytes();
+        Ok::<_, String>((spk, d.to_string(), km.len()))
+    }));
+    // model: private derivation of the whole path with rust-bitcoin, then the same wrapper over the plain key
+    let mut full: Vec<ChildNumber> = steps.clone();
+    if wildcard {
+        full.push(ChildNumber::from_normal_idx(index).unwrap());
+    }
+    let child = match master.derive_priv(&world.secp, &DerivationPath::from(full)) {
+        Ok(c) => c,
+        Err(_) => return,
+    };
+    let pk = bitcoin::secp256k1::PublicKey::from_secret_key(&world.secp, &child.private_key);
+    let plain = if wrapper.starts_with("tr") { hex(&pk.x_only_public_key().0.serialize()) } else { hex(&pk.serialize()) };
+    let want = match Descriptor::<Dk>::from_str(&wrapper.replace('@', &plain)) {
+        Ok(d) => d.script_pubkey().to_bytes(),
+        Err(_) => return,
+    };
+    match r {
+        Ok(Ok((spk, public, n))) => {
+            rep.nontrivial(&format!("secret-path|{}|{}", s.len(), public));
+            if spk != want {
+                rep.violation(
+                    case,
+                    "C16:secret-key-path-differs-from-bip32".into(),
+                    format!("{} at index {}: parse_descriptor gives the public descriptor {} ({} secret(s)) whose scriptPubKey is {}, private BIP-32 derivation of the written path gives {}", s, index, public, n, hex(&spk), hex(&want)),
+                );
+            } else {
+                rep.count("secret-key-path-equals-bip32");
+            }
+        }
+        Ok(Err(_)) => rep.count("secret-key-descriptor-refused"),
+        Err(m) => rep.violation(case, format!("C16:panic:parse_descriptor:{}", norm_loc(&last_panic_loc())), format!("{} on {}", m, s)),
+    }
+}
+
 pub fn run(cfg: &RunCfg, rep: &mut Report) {
     let world = World::new(cfg.seed);
     let total = cfg.n_cases(8_000, 150_000);
@@ -566,6 +634,9 @@ pub fn run(cfg: &RunCfg, rep: &mut Report) {
         check_derivation(rep, i, &world, &mut rng);
         if i % 4 == 0 {
             check_sortedmulti(rep, i, &world, &mut rng);
+        }
+        if i % 2 == 1 {
+            check_secret_paths(rep, i, &world, &mut rng);
         }
     }
     let _: Option<&dyn Names> = None;
